@@ -3,7 +3,8 @@ from .. import core
 
 def units(tier, seed):
     return [core.Unit('orc_executor_emulate', ['contracts/emulate_driver.c'], 'h_emulate', enforce=None, no_dfcc=True,
-                      functions=['orc_executor_emulate', 'load_constant'], unwind=97, timeout=1200, object_bits=12,
+                      functions=['orc_executor_emulate', 'load_constant'], unwind=97, timeout=900, object_bits=12, backends=['kissat', 'minisat'],
+                      defines=['NMAX_DRV=%d' % (17 if tier == 'quick' else 40)],
                       cbmc_flags=['--memory-leak-check'],
-                      bounded='one instruction of arbitrary shape (1-2 destinations, 1-2 sources, x1/x2/x4, every operand kind), n <= 40, m <= 2; loops fully unwound',
+                      bounded='one instruction of arbitrary shape (1-2 destinations, 1-2 sources, x1/x2/x4, every operand kind; operands among the first two slots of each variable class), n <= %d, m <= 2; loops fully unwound' % (17 if tier == 'quick' else 40),
                       contract_text='call-side obligations of the emulation driver checked by a stub standing for the opcode function: chunk order and size, lane scaling, operand footprints, staging of constants/parameters, accumulator cells, everything freed')]
